@@ -14,9 +14,13 @@
 (***************************************************************************)
 EXTENDS Integers, Sequences, FiniteSets, TLC
 CONSTANTS Xs, W, Ws, MOlds, Burns
-VARIABLES xs, ws, mold, burn
-vars == <<xs, ws, mold, burn>>
-Init == xs \in Xs /\ ws \in Ws /\ Len(ws) = Len(xs) /\ mold \in MOlds /\ burn \in Burns
+VARIABLES xs, ws, mold, burn,
+          far    \* TRUE: the first individual with an even split is "beyond the floor" - its regularity exceeds 100 for every
+                 \* cluster (by different amounts); the rules read the responsibilities as softmax(max(-regularity, -100)), the
+                 \* SAME floored responsibilities in every rule, so that this individual counts as evenly split everywhere
+vars == <<xs, ws, mold, burn, far>>
+Init == /\ xs \in Xs /\ ws \in Ws /\ Len(ws) = Len(xs) /\ mold \in MOlds /\ burn \in Burns
+        /\ far \in BOOLEAN /\ (far => \E i \in 1..Len(ws) : 2 * ws[i] = W)
 Next == UNCHANGED vars
 Spec == Init /\ [][Next]_vars
 
